@@ -6,6 +6,7 @@ import (
 	"fmt"
 	"math"
 	"math/rand"
+	"verif/mon"
 
 	hessian "github.com/vogo/gohessian"
 
@@ -152,6 +153,15 @@ func doubleFeatures(f float64) []string {
 		}
 	}
 	return feats
+}
+
+// c08Shared: the same float list in two fields (raw and filtered samples that have not diverged yet)
+type c08Shared struct {
+	Raw      []float64
+	Filtered []float64
+	R32      []float32
+	F32      []float32
+	N        int32
 }
 
 func (c08) Run(c Case, env *Env) Result {
@@ -378,6 +388,63 @@ func (c08) Run(c Case, env *Env) Result {
 				default:
 					if d := zoo.Equiv(v, o.Dec, zoo.EquivOpts{}); d != "" {
 						env.Viol(&res, Violation{Class: "mismatch:value", Features: feats, Detail: fmt.Sprintf("%T: %s (%s)", v, d, hexClip(o.Wire)), Case: cc})
+					}
+				}
+			}
+		}
+		// one float list in TWO slice fields of one object (the second occurrence is a back-reference), and the
+		// same on the second value of a stream whose first value already holds a container
+		for j, f := range []float64{0.1, 1e300, math.Pi, -2.5e-7, 16777217} {
+			for variant := 0; variant < 3; variant++ {
+				res.Evals++
+				res.NT = append(res.NT, Hash64(fmt.Sprintf("shared|%d|%d", j, variant)))
+				cc := c
+				cc.Sub = 2000 + j*3 + variant
+				feats := append(doubleFeatures(f), []string{"float-list-shared-by-two-fields", "float-list-shared-by-two-fields@second-stream-value", "float-list-shared-by-two-fields@untyped"}[variant])
+				sl := []float64{f, -f, 0.1, f / 3, 1, 0}
+				s32 := []float32{float32(f), 0.25, 16777216, -1e-7}
+				first := &c08Shared{Raw: []float64{0.25, -0.5}, R32: []float32{1.5}, N: 1}
+				v := &c08Shared{Raw: sl, Filtered: sl, R32: s32, F32: s32, N: 2}
+				tm, nm := hessian.ExtractTypeNameMap(v)
+				if variant == 2 {
+					nm = map[string]string{"c08Shared": "c08Shared"}
+				}
+				var outs []interface{}
+				var err error
+				w := &mon.CountingWriter{}
+				pi, _ := Guard(func() {
+					ser := hessian.NewSerializer(tm, nm)
+					if variant == 1 {
+						if err = ser.WriteTo(w, first); err == nil {
+							err = ser.Write(v)
+						}
+					} else {
+						err = ser.WriteTo(w, v)
+					}
+					if err != nil {
+						return
+					}
+					rs := hessian.NewSerializer(tm, nm)
+					var o interface{}
+					o, err = rs.ReadFrom(mon.NewReader(w.Buf.Bytes()))
+					outs = append(outs, o)
+					if variant == 1 && err == nil {
+						o, err = rs.Read()
+						outs = append(outs, o)
+					}
+				})
+				switch {
+				case pi != nil:
+					env.Viol(&res, Violation{Class: pi.Class, Features: feats, Detail: "panic " + pi.Msg, Case: cc})
+				case err != nil:
+					env.Viol(&res, Violation{Class: "dec-error", Features: feats, Detail: fmt.Sprintf("(%s): %v", hexClip(w.Buf.Bytes()), err), Case: cc})
+				default:
+					if d := zoo.Equiv(v, outs[len(outs)-1], zoo.EquivOpts{}); d != "" {
+						env.Viol(&res, Violation{Class: "mismatch:value", Features: feats, Detail: fmt.Sprintf("%s (%s)", d, hexClip(w.Buf.Bytes())), Case: cc})
+					} else if variant == 1 {
+						if d := zoo.Equiv(first, outs[0], zoo.EquivOpts{}); d != "" {
+							env.Viol(&res, Violation{Class: "mismatch:value", Features: feats, Detail: fmt.Sprintf("first value of the stream: %s", d), Case: cc})
+						}
 					}
 				}
 			}
